@@ -295,8 +295,28 @@ def leg_direction_rule(mod, fl, rep):
     rep.ob("R4", "the leg tracer integrates along the poloidal field direction: d(R,Z)/dl = sign*(Bp_R, Bp_Z)/|Bp| at the current position", ok, fl.site(rhs), detail, key="legs/direction")
     # the sign: away from the X-point, i.e. the sign of (leg - xpoint) . Bp at the leg's first point
     sg = [n for n in walk_own(fl.node) if isinstance(n, ast.Assign) and isinstance(n.targets[0], ast.Name) and n.targets[0].id == "sign"]
-    ok = len(sg) == 1 and T(mod, inline_temporaries(fl.node, sg[0].value, inline_calls=True, keep=("leg",))) in (
-        K("numpy.sign((leg[0] - xpoint.R) * self.Bp_R(*leg) + (leg[1] - xpoint.Z) * self.Bp_Z(*leg))"),)
+    ok = False
+    if len(sg) == 1:
+        v = inline_temporaries(fl.node, sg[0].value, inline_calls=True, keep=("leg",))
+        if isinstance(v, ast.Call) and T(mod, v.func) == "numpy.sign" and len(v.args) == 1:
+            ctx2 = Context()
+            ex2 = Extractor(ctx2, mod)
+            ex2.on_name = lambda name, env_: ctx2.sym(name)
+            ex2.on_attr = lambda d, node, env_: ctx2.sym(d)
+            ex2.on_subscript = lambda node, value, env_: ctx2.sym(T(mod, node))
+
+            def on_call2(node, fname, args, kwargs, env_):
+                if fname in ("self.Bp_R", "self.Bp_Z") and T(mod, node) in (K("%s(*leg)" % fname), K("%s(leg[0], leg[1])" % fname)):
+                    return ctx2.sym("BR_leg" if fname.endswith("_R") else "BZ_leg")
+                raise AlgError("call %s" % fname)
+            ex2.on_call = on_call2
+            ex2.pre_call = lambda node, fname, env_: (ctx2.sym("BR_leg" if fname.endswith("_R") else "BZ_leg") if fname in ("self.Bp_R", "self.Bp_Z") and T(mod, node) in (K("%s(*leg)" % fname), K("%s(leg[0], leg[1])" % fname)) else NotImplemented)
+            try:
+                arg = ex2.expr(v.args[0], {})
+                want = (ctx2.sym("leg[0]") - ctx2.sym("xpoint.R")) * ctx2.sym("BR_leg") + (ctx2.sym("leg[1]") - ctx2.sym("xpoint.Z")) * ctx2.sym("BZ_leg")
+                ok = isinstance(arg, Rat) and (arg - want).is_zero()
+            except AlgError:
+                ok = False
     rep.ob("R4", "the tracing direction is away from the X-point: sign = sign((leg - xpoint) . Bp(leg))", ok, fl.site(sg[0]) if sg else fl.site(), "", key="legs/direction-sign")
 
 
